@@ -150,10 +150,75 @@ func (w *world) genRLPTx(n *node) *genTx {
 }
 
 // rlpKeySwap: the wrapper's public key replaced by another eth key (the raw Ethereum transaction
-// and its signature stay): whoever owns that key did not sign anything.
+// and its signature stay): whoever owns that key did not sign anything. Preferably the attacker signs
+// an operation on something an eth-key account owns (a validator it is the output address of, a sell
+// order it created) and claims that owner's key in the wrapper.
 func (w *world) rlpKeySwap(g *genTx) ([]byte, string) {
+	c := w.c
+	t := c.T
 	if g == nil || g.tx == nil || !lib.IsRLPMemo(g.tx.Memo) || g.tx.Signature == nil {
 		return nil, ""
+	}
+	n := w.cur
+	if n == nil || !n.up {
+		n = w.upNodes()[0]
+	}
+	w.focus(n)
+	sm := n.ctl.FSM
+	var mallory *actor
+	for _, a := range w.actors {
+		if a.stranger && a.kind == "ethsecp" {
+			mallory = a
+		}
+	}
+	type target struct {
+		owner    *actor
+		contract string
+		selector string
+		msg      any
+		desc     string
+	}
+	var targets []target
+	if mallory != nil {
+		for _, a := range w.actors {
+			if a.kind != "bls" {
+				continue
+			}
+			if v, _ := sm.GetValidator(crypto.NewAddressFromBytes(a.addr)); v != nil {
+				if o, ok := w.byAddr[string(v.Output)]; ok && o.kind == "ethsecp" && !o.stranger {
+					targets = append(targets, target{o, fsm.StakedCNPYContractAddress, fsm.UnstakeSelector, &fsm.MessageUnstake{Address: a.addr}, "unstake " + a.name})
+				}
+			}
+		}
+		if book, _ := sm.GetOrderBook(nestedId); book != nil {
+			for _, o := range book.Orders {
+				if own, ok := w.byAddr[string(o.SellersSendAddress)]; ok && own.kind == "ethsecp" && !own.stranger && o.BuyerReceiveAddress == nil {
+					targets = append(targets, target{own, fsm.SwapCNPYContractAddress, fsm.DeleteOrderSelector, &fsm.MessageDeleteOrder{OrderId: o.Id, ChainId: nestedId}, fmt.Sprintf("delete-order %x", o.Id[:4])})
+				}
+			}
+		}
+	}
+	if len(targets) > 0 && t.Chance(3, 4) {
+		tg := targets[t.Intn(len(targets))]
+		v2 := lib.IsRLPMemo(g.tx.Memo) && g.tx.Memo == lib.RLPV2Indicator
+		nonce := sm.Height()
+		if v2 {
+			nonce = 0
+			if acc, _ := sm.GetAccount(crypto.NewAddressFromBytes(tg.owner.addr)); acc != nil {
+				nonce = acc.Nonce // the floor of the claimed owner
+			}
+		}
+		tx := w.rlpCall(mallory, v2, nonce, tg.contract, tg.selector, tg.msg)
+		if tx == nil {
+			return nil, ""
+		}
+		tx.Signature.PublicKey = tg.owner.key.PublicKey().Bytes()
+		bz, err := lib.Marshal(tx)
+		if err != nil {
+			return nil, ""
+		}
+		c.Probe("rlp_key_swap_on_owned_object")
+		return bz, "rlp-wrapper-public-key-swapped(" + tg.desc + " owned by " + tg.owner.name + ")"
 	}
 	victim := w.pickActor(func(a *actor) bool { return a.kind == "ethsecp" && a != g.from })
 	if victim == g.from || victim.kind != "ethsecp" {
@@ -170,4 +235,44 @@ func (w *world) rlpKeySwap(g *genTx) ([]byte, string) {
 		return nil, ""
 	}
 	return bz, "rlp-wrapper-public-key-swapped"
+}
+
+// rlpCall signs a contract call with from's eth key and wraps it.
+func (w *world) rlpCall(from *actor, v2 bool, nonce uint64, contract, selector string, m any) *lib.Transaction {
+	ek, ok := from.key.(*crypto.ETHSECP256K1PrivateKey)
+	if !ok {
+		return nil
+	}
+	var evm uint64
+	if v2 {
+		id, ok := fsm.CanopyIdsToEVMChainIdV2(1, 1)
+		if !ok {
+			return nil
+		}
+		evm = id
+	} else {
+		evm = fsm.CanopyIdsToEVMChainId(1, 1)
+	}
+	pb, _ := lib.Marshal(m)
+	sel, _ := lib.StringToBytes(selector)
+	to := common.HexToAddress(contract)
+	signed, err := ethTypes.SignNewTx(ek.PrivateKey, ethTypes.LatestSignerForChainID(new(big.Int).SetUint64(evm)), &ethTypes.LegacyTx{Nonce: nonce, GasPrice: big.NewInt(1_000_000_000_000), Gas: 21_000, To: &to, Value: big.NewInt(0), Data: append(sel, pb...)})
+	if err != nil {
+		return nil
+	}
+	raw, err := signed.MarshalBinary()
+	if err != nil {
+		return nil
+	}
+	var tx *lib.Transaction
+	var e lib.ErrorI
+	if v2 {
+		tx, e = fsm.RLPToCanopyTransactionV2(raw)
+	} else {
+		tx, e = fsm.RLPToCanopyTransaction(raw)
+	}
+	if e != nil {
+		return nil
+	}
+	return tx
 }
